@@ -158,6 +158,14 @@ def gen_plan(prop, tier, rng, i):
             "existing_first": rng.random() < 0.25, "window": None}
     if not plan["include_drf"] and not plan["include_dmd"]:
         plan["include_drf"] = True
+    r_ = rng.random()
+    if r_ < 0.2:
+        # the publishing rename tmp.X -> X inside the destination fails once (EIO)
+        plan["fail_publish_nth"] = rng.randrange(1, 12)
+    elif r_ < 0.45:
+        # the mirror process is killed at a seeded FS-op boundary of one of its phases; a new mirror process is
+        # started, replays the files that exist (start()) and receives all events delivered so far again
+        plan["mirror_crash"] = {"round": rng.randrange(0, nrounds), "op": rng.randrange(0, 40)}
     if rng.random() < 0.3:
         cfg = state[0]["cfg"]
         files = state[0]["model"].files()
@@ -261,6 +269,44 @@ def _child(plan, src, dest):
                         roles[r_].dispatch(ev)
                 report({"ev": "dispatched", "p": e.get("q", e["p"])})
         report({"ev": "phase", "ph": "end", "r": len(plan["rounds"])})
+        report.sync("end")
+    return fn
+
+
+def _child_restart(plan, src, dest, upto_round):
+    def fn(report):
+        from digital_rf import mirror as mirmod
+        from watchdog import events as we
+
+        win = plan.get("window")
+        mir = mirmod.DigitalRFMirror(src, dest, method=plan["method"], link=plan["link"],
+                                     starttime=_dt(win[0]) if win else None, endtime=_dt(win[1]) if win else None,
+                                     include_drf=plan["include_drf"], include_dmd=plan["include_dmd"])
+        mir.observer.start = lambda: None
+        report({"ev": "phase", "ph": "mirror", "r": upto_round})
+        report.sync("mirror")
+        mir.start()
+        report({"ev": "existing_replayed"})
+        roles = {}
+        for h in mir.event_handlers:
+            r_ = "rb" if hasattr(h, "records") else ("move" if getattr(h, "mirror_fun", None) is shutil.move else "copy")
+            roles[r_] = h
+        for rnd in plan["rounds"][:upto_round + 1]:
+            for e in rnd["events"]:
+                p = os.path.join(src, e["p"])
+                if e["k"] == "moved":
+                    ev = we.FileMovedEvent(p, os.path.join(src, e["q"]))
+                elif e["k"] == "created":
+                    ev = we.FileCreatedEvent(p)
+                else:
+                    ev = we.FileModifiedEvent(p)
+                for hi in e.get("order", [0, 1, 2]):
+                    r_ = ("copy", "move", "rb")[hi]
+                    if r_ in roles:
+                        report({"ev": "to_handler", "role": r_, "p": e.get("q", e["p"])})
+                        roles[r_].dispatch(ev)
+                report({"ev": "dispatched", "p": e.get("q", e["p"])})
+        report({"ev": "phase", "ph": "end", "r": upto_round})
         report.sync("end")
     return fn
 
@@ -378,8 +424,13 @@ def run_plan(prop, plan):
                 viol("rf_file_lost", "no intact copy of %s in source or destination (next op: %s)" % (
                     rel, op.sig() if op else "-"), exdev=plan["exdev"])
 
-    try:
-        node = K.Node(tree, _child(plan, src, dest), log_path=os.path.join(sc, "node.log"))
+    crash = plan.get("mirror_crash")
+    crashed = [False]
+    npub = [0]
+    failed_publish = set()
+    mirror_ops = [0]
+
+    def drive(node):
         k = 0
         try:
             while True:
@@ -421,6 +472,13 @@ def run_plan(prop, plan):
                     continue
                 if phase[0] == "mirror":
                     check_boundary(ev)
+                    if crash and not crashed[0] and phase[1] == crash["round"]:
+                        if mirror_ops[0] == crash["op"]:
+                            crashed[0] = True
+                            res.fault("mirror_process_sigkill")
+                            node.kill()
+                            return k
+                        mirror_ops[0] += 1
                     if ev.kind == "unlink" and ev.p1.startswith("src/") and not _is_rf(ev.p1) \
                             and MD.RE_MDFILE.match(os.path.basename(ev.p1)):
                         # the metadata ringbuffer (count=1) is about to delete a source metadata file:
@@ -435,11 +493,22 @@ def run_plan(prop, plan):
                             else:
                                 expired_uncopied.add(rel)
                                 res.probe("metadata_expired_before_latest_copy")
-                # cross-device behaviour
-                if plan["exdev"] and ev.kind in ("rename", "link") and ev.p1.startswith("src/") and ev.p2.startswith("dest/"):
+                # cross-device behaviour (link onto an existing name fails with EEXIST before the kernel looks at
+                # the devices, so that case is left to the real call)
+                if plan["exdev"] and ev.kind in ("rename", "link") and ev.p1.startswith("src/") and ev.p2.startswith("dest/") \
+                        and not (ev.kind == "link" and os.path.lexists(os.path.join(tree, ev.p2))):
                     res.fault("EXDEV_" + ev.kind)
                     node.fail(errno.EXDEV)
                     continue
+                # the publishing rename inside the destination fails once
+                if ev.kind == "rename" and ev.p1.startswith("dest/") and ev.p2.startswith("dest/") and \
+                        os.path.basename(ev.p1) == "tmp." + os.path.basename(ev.p2):
+                    npub[0] += 1
+                    if plan.get("fail_publish_nth") == npub[0]:
+                        res.fault("EIO_publishing_rename")
+                        failed_publish.add(os.path.relpath(ev.p2, "dest"))
+                        node.fail(errno.EIO)
+                        continue
                 node.go()
                 if ev.kind == "rename" and ev.p1.startswith("src/") and ev.p2.startswith("src/"):
                     b1, b2 = os.path.basename(ev.p1), os.path.basename(ev.p2)
@@ -447,6 +516,26 @@ def run_plan(prop, plan):
                         pending_hash.append(os.path.relpath(ev.p2, "src"))
         finally:
             node.kill()
+        return k
+
+    try:
+        node = K.Node(tree, _child(plan, src, dest), log_path=os.path.join(sc, "node.log"))
+        k = drive(node)
+        if crashed[0]:
+            # what the dead process left behind is examined, then a new mirror process takes over
+            phase[0] = "after_kill"
+            check_boundary(None)
+            node = K.Node(tree, _child_restart(plan, src, dest, crash["round"]), log_path=os.path.join(sc, "node2.log"))
+            k += drive(node)
+            phase[0] = "after_restart"
+            check_boundary(None)
+            if node.died_of_signal():
+                viol("node_died", "restarted mirror process died with status %s" % node.died_of_signal())
+            res.stats["recorder_steps"] = k
+            res.nontrivial = len(src_final) >= 2
+            res.probe("mirror_restarted_after_kill")
+            res.probe("method_" + method + ("_exdev" if plan["exdev"] else ""))
+            return res
         if node.died_of_signal():
             viol("node_died", "mirror/recorder process died with status %s" % node.died_of_signal())
             return res
@@ -459,6 +548,10 @@ def run_plan(prop, plan):
         sfiles = _walk_files(src)
         for rel, p in dfiles.items():
             if os.path.basename(rel).startswith("tmp."):
+                final_rel = os.path.join(os.path.dirname(rel), os.path.basename(rel)[4:])
+                if final_rel in failed_publish:
+                    res.probe("staged_copy_kept_after_failed_publish")
+                    continue
                 viol("tmp_left_in_dest", "staging file %s left in the destination" % rel)
         want = set()
         for rel in src_final:
@@ -468,6 +561,8 @@ def run_plan(prop, plan):
             if selected(rel) and (rel in delivered or rel in replayed):
                 want.add(rel)
         for rel in sorted(want):
+            if rel in failed_publish:
+                continue  # its publication was made to fail; the no-loss invariant has been checked at every boundary
             if rel not in dfiles:
                 viol("not_mirrored", "%s (events delivered) is missing in the destination%s" % (
                     rel, " - the metadata ringbuffer deleted it from the source before it was copied" if rel in expired_uncopied else ""),
